@@ -889,6 +889,9 @@ End ConfigFacts.
 Lemma dump_fields_cover p : map fst (dump_fields p) = (req_param_names ++ optional_param_names)%list.
 Proof. reflexivity. Qed.
 
+Lemma dump_effective_cover s : map fst (dump_effective s) = map fst effective_options.
+Proof. reflexivity. Qed.
+
 Require Import SV.C14.Defaults.
 Lemma defaults_match_docs :
   defaults_mismatches = [] /\ documented_but_unread = [] /\ stale_known = [].
